@@ -82,7 +82,7 @@ def eval_cases(cases, tag):
     body = m.group(1).strip()
     bad = []
     if body != "[]":
-        for mm in re.finditer(r"\((\d+)(?:%nat)?,\s*(\d+)(?:%nat)?,\s*\(?(-?\d+)\)?(?:%Z)?\)", body):
+        for mm in re.finditer(r"\(\s*(\d+)(?:%nat)?,\s*(\d+)(?:%nat)?,\s*\(?\s*(-?\d+)\s*\)?(?:%Z)?\s*\)", body):
             bad.append((int(mm.group(1)), int(mm.group(2)), int(mm.group(3))))
         if not bad:
             bad.append((0, -1, -1))
